@@ -133,8 +133,11 @@ class Raw:
 class Finding:
     """a known-finding variant: function `fn_key` re-verified with envelope clauses replaced"""
 
-    def __init__(self, fid, fn_key, props, domain_requires, expect_clause=None, what=""):
+    def __init__(self, fid, fn_key, props, domain_requires, expect_clause=None, what="", must_hold=()):
         self.fid, self.fn_key, self.props = fid, fn_key, tuple(props)
+        # clauses of the function that do NOT depend on the finding's envelope: they must verify in the variant too (i.e. without the
+        # envelope precondition); each becomes an obligation `<fn>#<clause>@<fid>` under the clause's own property tags
+        self.must_hold = tuple(must_hold)
         self.domain_requires = domain_requires  # list[str]; replaces the clauses with envelope_of == fid
         self.expect_clause = expect_clause      # clause id expected to fail (None: implicit-safety)
         self.what = what
@@ -974,7 +977,10 @@ def annotate_fn(f, override_requires=None, canary=False, drop_body=False):
             c.kind = "loop_ensures"
         for c in lp.invariant_except_break:
             c.kind = "invariant"
-        ann += _clause_block("invariant", lp.invariants, fid, "        ")
+        # a finding variant drops the loop invariants that merely carry the finding's envelope through the loop (envelope_of == fid):
+        # an invariant that fails on entry is still ASSUMED inside the loop body, which would shelter everything proved there
+        inv_ = [c for c in lp.invariants if not (override_requires is not None and c.envelope_of == override_requires[0])]
+        ann += _clause_block("invariant", inv_, fid, "        ")
         ann += _clause_block("invariant_except_break", lp.invariant_except_break, fid, "        ")
         ann += _clause_block("ensures", lp.ensures, fid, "        ")
         if lp.decreases:
